@@ -29,13 +29,30 @@
       that is a left OR a right child), [pulldown_WInvX] (a subtree that had moved up one row is
       pulled down again: the weak invariant [WInvX] with a set of exempt coordinates is
       preserved; this is the step of [undoDeletion] as well as of [undoSingleAdd]).
-    NOT PROVED HERE: blocks with deletions ([undoDeletion]: G2, G3).  The statement for general
-    blocks (R2 = (R1 minus the additions) plus the deleted leaves, which [undoDeletion] caches
-    again) was tested exhaustively on all forests of up to 5 slots (every pattern of dead slots,
-    every remembered set, every deletion set, 0-3 additions with every remember pattern, full
-    and partial, [ms_total = TreeRows] and larger, also after pruning / ingesting between the
-    block and the undo, also on untidy partial forests that store every node) and up to 7 slots
-    for full forests: no counterexample.
+    TOWARDS BLOCKS WITH DELETIONS ([undoDeletion], G2/G3; Parts 15-18, all proved):
+    - [kill_inner_conv], [kill_root_conv]: the CONVERSE of [MapMutRemove.kill_inner] /
+      [kill_root]: every node of the layout after the deletion of a subtree is the image of a node
+      before (unchanged, lifted one row, or a re-hashed ancestor);
+    - [pullB], [stepD_WInvX]: ONE step of the loop "move down the nodes" of [undoDeletion] for a
+      detwinned target that is no root ([placeEmptyRoot], then the node on the parent position
+      goes back to the position of the sibling): from the weak invariant for [kill L s] to the
+      weak invariant for [s], the ancestors of the target, its parent and the deleted subtree
+      being exempt (they are recomputed at the end of [undoDeletion]);
+    - [stepR_WInvX]: the step for a target that is a root (a whole tree was deleted);
+    - [ud_movedown_app], [step_nonroot_eq], [step_root_eq], [nonroot_geo], [root_geo]: the
+      mirror's loop body is these steps ([inForest] of the sibling, [Parent],
+      [calcPrevPosition] on coordinates).
+    NOT PROVED HERE: (i) the induction over the detwinned targets (the steps compose as in
+    [MapMutRemove.remove_fold], newest target first; the exempt sets must be restricted to node
+    coordinates, see the remark before Part 18), (ii) the end of [undoDeletion] ([ud_fill],
+    [calculateHashes] on the canonical proof as in [MapMutPrune.ing_calc], [put_calculated]),
+    (iii) [getWrittenOverEmptyRoots] for a block with deletions ([getRootsAfterDel]).  The
+    statement for general blocks (R2 = (R1 minus the additions) plus the deleted leaves, which
+    [undoDeletion] caches again) was tested exhaustively on all forests of up to 5 slots (every
+    pattern of dead slots, every remembered set, every deletion set, 0-3 additions with every
+    remember pattern, full and partial, [ms_total = TreeRows] and larger, also after pruning /
+    ingesting between the block and the undo, also on untidy partial forests that store every
+    node) and up to 7 slots for full forests: no counterexample.
 
     Invariant.  [UInv s R m]: the numeric clauses of [consistent], [NoDup (live s)], no live leaf
     is the empty hash or a [hash2] image, and [MapMutAdd.GInv] for the view of the layout of [s].
@@ -49,7 +66,8 @@
       the loop of [undoAdd].
     - Part 9-10: the tail of [Undo] ([undoDeletion] of nothing, [put_roots]); [UInv].
     - Part 11: [getWrittenOverEmptyRoots] = the destroyed roots of Proofs/StumpAddData.v,
-      reversed.  Part 12-13: the theorems; an example with two empty roots and a remap. *)
+      reversed.  Part 12-13: the theorems; an example with two empty roots and a remap.
+    - Part 15-18: the steps of [undoDeletion] (see above). *)
 From Utreexo Require Import Base.Hash Model.Utils Model.UtilsFast Model.Verify Model.MapRead
   Model.MapMut Spec.Forest Proofs.UtilsGeom Proofs.UtilsGeom2 Proofs.SpecBasics Proofs.StumpAdd
   Proofs.LayoutStruct Proofs.ProofPosSpec Proofs.MapReadSpec Proofs.MapMutAdd.
@@ -2862,6 +2880,9 @@ Proof. rewrite under_iff_range. reflexivity. Qed.
 Lemma inRegG_under rd od r o : inRegG rd od r o <-> MapMutRemove.under (S rd, od / 2) (r, o).
 Proof. rewrite under_iff_range. reflexivity. Qed.
 
+Lemma anc_under0 r o k : MapMutRemove.under ((r + k)%nat, o / 2 ^ N.of_nat k) (r, o).
+Proof. split; [cbn; lia|]. cbn [fst snd]. replace (r + k - r)%nat with k by lia. reflexivity. Qed.
+
 Section LeafBelow.
   Variable H : Type.
   Variable HO : ops H.
@@ -3302,6 +3323,259 @@ Section StepDel.
     - intros C. exact (HXout _ _ C (P_reg T rd od HT A B)).
   Qed.
 End StepDel.
+(** * Part 17: the step of [undoDeletion] for a deleted tree (the target is a root) *)
+Section StepRoot.
+  Variable H : Type.
+  Variable HO : ops H.
+  Hypothesis HOK : ops_ok HO.
+  Variable T : N.
+  Hypothesis HT : T <= 63.
+  Variable s : slots H.
+  Hypothesis HnT : N.of_nat (length s) <= 2 ^ T.
+  Hypothesis Hnd : NoDup (live s).
+  Variable L : list H.
+  Variable x : node H.
+  Hypothesis Hx : In x (layout HO s).
+  Hypothesis Hdel : forall y, In y (layout HO s) -> nleaf y = true ->
+    (memH HO (nhash y) L = true <-> MapMutRemove.under (coord x) (coord y)).
+  Hypothesis Hroot : nroot x = true.
+  Notation under := MapMutRemove.under.
+  Notation lay := (layout HO s).
+  Notation s' := (kill HO L s).
+  Notation lay' := (layout HO (kill HO L s)).
+
+  Let n63 : N.of_nat (length s) <= 2 ^ 63.
+  Proof. assert (2 ^ T <= 2 ^ 63) by (apply UtilsGeom.pow2_le; exact HT). lia. Qed.
+  Let Tlo : TreeRows (N.of_nat (length s)) <= T.
+  Proof. apply TreeRows_le_iff. exact HnT. Qed.
+
+  Lemma KR : In (mkNode (nrow x) (noff x) (op_empty HO) false true (nrow x)) lay' /\
+    (forall y, In y lay -> ~ under (coord x) (coord y) -> In y lay').
+  Proof. exact (MapMutRemove.kill_root H HO s L x Hx Hdel Hroot). Qed.
+
+  Theorem kill_root_conv y' : In y' lay' ->
+    y' = mkNode (nrow x) (noff x) (op_empty HO) false true (nrow x) \/
+    (In y' lay /\ ~ under (coord x) (coord y')).
+  Proof.
+    intros Hy'.
+    assert (Hn63' : N.of_nat (length (kill HO L s)) <= 2 ^ 63) by (rewrite (len_kill H HO s L); exact n63).
+    assert (HTlo' : TreeRows (N.of_nat (length (kill HO L s))) <= T) by (rewrite (len_kill H HO s L); exact Tlo).
+    pose proof (MapMutRemove.kill_nodup H HO L s Hnd) as Hnd'.
+    assert (Hold : forall y, In y lay -> coord y = coord y' -> ~ under (coord x) (coord y) ->
+              In y' lay /\ ~ under (coord x) (coord y')).
+    { intros y Hy Ec Hn. rewrite (MapMutRemove.ng_coord_eq H HO _ y' y Hy' (proj2 KR y Hy Hn) (eq_sym Ec)).
+      split; assumption. }
+    destruct (leaf_below H HO (kill HO L s) (nrow y') y' eq_refl Hy') as [(z' & Hz' & Lz' & Uz')|(Hr' & _)].
+    - right. pose proof (layout_leaf_live H HO _ z' Hz' Lz') as Hl.
+      apply MapMutRemove.kill_live in Hl as [Hl Hm].
+      destruct (live_leaf_in_layout H HO s _ Hl) as (z & Hz & Lz & Ez). rewrite <- Ez in Hm.
+      assert (Hnx : ~ under (coord x) (coord z)).
+      { intros Ux. apply (Hdel z Hz Lz) in Ux. congruence. }
+      assert (Ezz : z' = z) by (apply (live_leaf_unique H HO _ _ _ Hnd' Hz' (proj2 KR z Hz Hnx) Lz' Lz); congruence).
+      subst z'. destruct Uz' as [Hr Eo]. unfold coord in Hr, Eo. cbn [fst snd] in Hr, Eo.
+      set (k := (nrow y' - nrow z)%nat).
+      assert (Ht : (nrow y' <= ntree z)%nat).
+      { pose proof (node_row_le_tree H HO _ y' Hy') as Hle.
+        rewrite (MapMutRemove.ng_same_tree H HO _ y' z Hy' Hz' (conj Hr Eo)). exact Hle. }
+      destruct (MapMutRemove.ng_ancestor H HO s T n63 Tlo HT z Hz k ltac:(unfold k; lia)) as (y & Hy & Ecy & _).
+      assert (Ec : coord y = coord y').
+      { rewrite Ecy. unfold coord. f_equal; [unfold k; lia|]. rewrite <- Eo. reflexivity. }
+      apply (Hold y Hy Ec). intros U. apply Hnx.
+      apply (MapMutRemove.under_trans _ (coord y)); [exact U|]. rewrite Ecy. apply anc_under0.
+    - destruct (MapMutRemove.kill_roots H HO L s y' Hy' Hr') as (y & Hy & Hry & Ec).
+      destruct (MapMutRemove.under_dec (coord x) (coord y)) as [U|NU].
+      + left. assert (Exy : coord y = coord x).
+        { pose proof (MapMutRemove.ng_same_tree H HO s x y Hx Hy U) as Et.
+          apply (root_iff_row H HO s y Hy) in Hry. apply (root_iff_row H HO s x Hx) in Hroot.
+          destruct U as [Hr Eo]. unfold coord in *. cbn [fst snd] in *.
+          assert (Er : nrow y = nrow x) by lia. rewrite Er, Nat.sub_diag, p2_0, N.div_1_r in Eo. congruence. }
+        apply (MapMutRemove.ng_coord_eq H HO _ y' _ Hy' (proj1 KR)). rewrite <- Ec, Exy. reflexivity.
+      + right. exact (Hold y Hy Ec NU).
+  Qed.
+
+  Lemma R_HRT r o : RTlay HO s' r o -> RTlay HO s r o.
+  Proof.
+    intros (y' & Hy' & Hr' & <- & <-).
+    destruct (MapMutRemove.kill_roots H HO L s y' Hy' Hr') as (y & Hy & Hry & Ec). injection Ec as Er Eo.
+    exists y. auto.
+  Qed.
+
+  Theorem stepR_WInvX (R : list H) (X : nat -> N -> Prop) nd ca :
+    (forall z, In z R -> In (Some z) s') ->
+    WInvX (Vlay HO s') (RTlay HO s') R T X nd ca ->
+    WInvX (Vlay HO s) (RTlay HO s) R T (fun r o => X r o \/ under (coord x) (r, o)) nd ca.
+  Proof.
+    intros HR W.
+    assert (Hfw : forall r o h l, Vlay HO s r o h l -> ~ under (coord x) (r, o) -> Vlay HO s' r o h l).
+    { intros r o h l (y & Hy & <- & <- & <- & <-) Hn. exists y. split; [exact (proj2 KR y Hy Hn)|auto]. }
+    assert (Hleaf : forall r o h, Vlay HO s r o h true -> In h R -> ~ under (coord x) (r, o)).
+    { intros r o h (y & Hy & <- & <- & <- & Ly) Hh U. apply (Hdel y Hy Ly) in U.
+      apply HR, MapMutRemove.kill_live in Hh. destruct Hh as [_ Hm]. congruence. }
+    assert (Hkn : forall r o, known (Vlay HO s) (RTlay HO s) R r o ->
+              known (Vlay HO s') (RTlay HO s') R r o /\ ~ under (coord x) (r, o)).
+    { intros r o Hk. induction Hk as [r o h Hv Hh|r o _ [IH1 IH2] Hn].
+      - pose proof (Hleaf _ _ _ Hv Hh) as Hnu. split; [|exact Hnu].
+        exact (kn_leaf _ _ _ _ _ h (Hfw _ _ _ _ Hv Hnu) Hh).
+      - split.
+        + apply kn_up; [exact IH1|]. intros C. exact (Hn (R_HRT _ _ C)).
+        + intros U. apply IH2. apply (MapMutRemove.under_trans _ (S r, o / 2)); [exact U|].
+          replace (S r) with (r + 1)%nat by lia. change 2 with (2 ^ N.of_nat 1). apply anc_under0. }
+    constructor.
+    - exact (w_nodup W).
+    - intros p h b Hin. destruct (w_true W _ _ _ Hin) as (r & o & Ep & A & B & [C|(l & (y' & Hy' & Er & Eo & Eh & El))]);
+        exists r, o; repeat split; auto.
+      destruct (kill_root_conv y' Hy') as [->|[Hy _]].
+      + left. right. cbn [nrow noff] in Er, Eo. rewrite <- Er, <- Eo. apply MapMutRemove.under_refl.
+      + right. exists l, y'. auto.
+    - exact (w_cR W).
+    - intros h p Hin. destruct (w_cpos W _ _ Hin) as (r & o & (y' & Hy' & Er & Eo & Eh & El) & Ep).
+      exists r, o. split; [|exact Ep]. destruct (kill_root_conv y' Hy') as [->|[Hy _]]; [discriminate El|].
+      exists y'. auto.
+    - intros r o h Hv Hh HnX. apply (w_tgt W _ _ _ (Hfw _ _ _ _ Hv ltac:(tauto)) Hh). tauto.
+    - intros r o Hk Hn h l Hv HnX. destruct (Hkn _ _ Hk) as [Hk' _].
+      apply (w_sibs W r o Hk') with (h := h) (l := l).
+      + intros C. exact (Hn (R_HRT _ _ C)).
+      + apply Hfw; [exact Hv|tauto].
+      + tauto.
+  Qed.
+End StepRoot.
+(** * Part 18: the loop of [undoDeletion] that moves the subtrees down: its body
+
+    Remark (what the induction over the targets needs).  [stepD_WInvX] exempts ALL coordinates
+    above the parent of the target and ALL coordinates below the target; only those that hold a
+    node of the layout are written by [put_calculated] at the end.  The others hold nothing
+    ([placeEmptyRoot_coords]: [pc_del]; the truth clause for coordinates above the root of the
+    tree), so they can be dropped with [WInvX_unexempt] step by step; the loop invariant is then
+    the weak invariant with the exempt set "node coordinates of [s] that lie below a later
+    target, or above the parent of a later target that is no root". *)
+Section MoveDownGeo.
+  Variable H : Type.
+  Variable HO : ops H.
+  Variable full : bool.
+  Variable T : N.
+  Hypothesis HT : T <= 63.
+  Variable s : slots H.
+  Hypothesis HnT : N.of_nat (length s) <= 2 ^ T.
+  Notation n := (N.of_nat (length s)).
+  Notation lay := (layout HO s).
+
+  Definition posN (y : node H) : N := gp T (nrow y) (noff y).
+
+  Let n63 : n <= 2 ^ 63.
+  Proof. assert (2 ^ T <= 2 ^ 63) by (apply UtilsGeom.pow2_le; exact HT). lia. Qed.
+  Let Tlo : TreeRows n <= T.
+  Proof. apply TreeRows_le_iff. exact HnT. Qed.
+
+  Lemma ud_movedown_app : forall l1 l2 (st : maps H),
+    ud_movedown HO n T full (l1 ++ l2) st =
+    match ud_movedown HO n T full l1 st with
+    | (st1, true) => ud_movedown HO n T full l2 st1
+    | (st1, false) => (st1, false)
+    end.
+  Proof.
+    induction l1 as [|t l1 IH]; intros l2 st; [reflexivity|]. cbn [app ud_movedown].
+    destruct (if inForest (sibling t) n T then placeEmptyRoot HO T full t st else (st, true)) as [st1 [|]]; [|reflexivity].
+    apply IH.
+  Qed.
+
+  Lemma nonroot_geo y : In y lay -> nroot y = false ->
+    N.of_nat (nrow y) < T /\ noff y < 2 ^ (T - N.of_nat (nrow y)) /\
+    inForest (sibling (posN y)) n T = true /\
+    Parent (posN y) T = gp T (S (nrow y)) (noff y / 2) /\
+    calcPrevPosition (gp T (S (nrow y)) (noff y / 2)) (posN y) T = gp T (nrow y) (N.lxor (noff y) 1).
+  Proof.
+    intros Hy Hr. destruct (MapMutRemove.ng_valid H HO s T n63 Tlo HT y Hy) as [_ Vo].
+    destruct (MapMutRemove.ng_family H HO s y Hy Hr) as (p & sbn & Hp & Hsbn & _ & _ & Es & Ep & _).
+    destruct (MapMutRemove.ng_valid H HO s T n63 Tlo HT p Hp) as [Vp _]. injection Ep as Epr Epo.
+    assert (Hrd : N.of_nat (nrow y) < T) by lia.
+    split; [exact Hrd|]. split; [exact Vo|].
+    assert (Hsv : N.lxor (noff y) 1 < 2 ^ (T - N.of_nat (nrow y))) by (apply sib_offsets_lt; assumption).
+    unfold posN, gp. rewrite sibling_gpos by lia. split.
+    - apply inForest_spec; [exact HT|lia|exact Hsv|].
+      injection Es as Esr Eso. pose proof (Vlay_bound H HO s (nrow sbn) (noff sbn) (nhash sbn) (nleaf sbn) ltac:(exists sbn; auto)) as Hb.
+      rewrite Esr, Eso in Hb. exact Hb.
+    - rewrite (Parent_gpos T _ _ HT Hrd Vo). split; [f_equal; lia|].
+      assert (Hq : noff y / 2 < 2 ^ (T - N.of_nat (nrow y) - 1)).
+      { replace (T - N.of_nat (nrow y)) with (T - N.of_nat (nrow y) - 1 + 1) in Vo by lia.
+        rewrite UtilsGeom.pow2_S in Vo. apply N.div_lt_upper_bound; lia. }
+      replace (N.of_nat (S (nrow y))) with (N.of_nat (nrow y) + 1) by lia.
+      rewrite (calcPrevPosition_gpos T (N.of_nat (nrow y)) (noff y / 2) _ (N.of_nat (nrow y)) HT (N.le_refl _) Hrd Hq).
+      2:{ apply DetectRow_gpos; [exact HT|lia|exact Vo]. }
+      f_equal. rewrite N.sub_diag, insbit_0, isLeftNiece_gpos by lia.
+      rewrite lxor_1. pose proof (N.div_mod' (noff y) 2) as Hdm. pose proof (mod2_even (noff y)) as Hm.
+      destruct (N.even (noff y)); cbn [N.b2n]; lia.
+  Qed.
+
+  Lemma step_nonroot_eq y (st st1 : maps H) : In y lay -> nroot y = false ->
+    placeEmptyRoot HO T full (posN y) st = (st1, true) ->
+    ud_movedown HO n T full [posN y] st = (pmove H HO full T (nrow y) (noff y) st1, true).
+  Proof.
+    intros Hy Hr E. destruct (nonroot_geo y Hy Hr) as (_ & _ & G1 & G2 & G3).
+    cbn [ud_movedown]. rewrite G1, E, G2, G3. unfold pmove.
+    destruct (nodes_get (fst st1) (gp T (S (nrow y)) (noff y / 2))) as [v|]; reflexivity.
+  Qed.
+
+  (** a root: the sibling is not in the forest, the parent position is no position of a coordinate
+      unless the root is below the top row *)
+  Lemma root_geo y : In y lay -> nroot y = true ->
+    inForest (sibling (posN y)) n T = false /\
+    (forall r o, N.of_nat r <= T -> o < 2 ^ (T - N.of_nat r) -> gp T r o = Parent (posN y) T ->
+       r = S (nrow y) /\ o = noff y / 2).
+  Proof.
+    intros Hy Hr. destruct (MapMutRemove.ng_valid H HO s T n63 Tlo HT y Hy) as [Vr Vo].
+    destruct (root_node_conv H HO s y Hy Hr) as (k & lo & t & He & Ek & Eo & _).
+    destruct (root_node H HO s k lo t He) as (Hbit & _ & Ediv & _). rewrite Ediv in Eo. subst k.
+    set (rd := N.of_nat (nrow y)) in *. set (q := n / 2 ^ (rd + 1)) in *.
+    assert (Hlx : N.lxor (noff y) 1 = 2 * q + 1) by (rewrite Eo; apply lxor_2q).
+    assert (Hgt : n < (q + 1) * 2 ^ (rd + 1)).
+    { pose proof (N.div_mod' n (2 ^ (rd + 1))) as Hdm. pose proof (N.mod_lt n (2 ^ (rd + 1)) (pow2_nz _)). fold q in Hdm. lia. }
+    destruct (N.eq_dec rd T) as [ET|NT].
+    - (* the top row *)
+      assert (Eq0 : noff y = 0) by (rewrite ET, N.sub_diag in Vo; change (2 ^ 0) with 1 in Vo; lia).
+      assert (Epos : posN y = 2 ^ (T + 1) - 2).
+      { unfold posN, gp. fold rd. rewrite ET, Eq0. unfold UtilsGeom.gpos, UtilsGeom.gstart.
+        replace (T + 1 - T) with 1 by lia. change (2 ^ 1) with 2. lia. }
+      pose proof (UtilsGeom.pow2_pos T) as HpT. rewrite UtilsGeom.pow2_S in Epos.
+      assert (Esib : sibling (posN y) = 2 * 2 ^ T - 1).
+      { rewrite Epos. unfold sibling, xor64. rewrite lxor_1.
+        replace (2 * 2 ^ T - 2) with (2 * (2 ^ T - 1)) by lia. rewrite N.even_mul. change (N.even 2) with true. cbn [orb]. lia. }
+      assert (EPar : Parent (posN y) T = 2 * 2 ^ T - 1).
+      { rewrite Epos. unfold Parent, or64, shr. rewrite shl_1 by exact HT.
+        replace (2 * 2 ^ T - 2) with (2 * (2 ^ T - 1)) by lia. rewrite N.shiftr_spec' || idtac.
+        replace (N.shiftr (2 * (2 ^ T - 1)) 1) with (2 ^ T - 1).
+        2:{ rewrite N.shiftr_div_pow2. change (2 ^ 1) with 2. rewrite N.mul_comm, N.div_mul by lia. reflexivity. }
+        rewrite lor_pow2_add by lia. lia. }
+      split.
+      + unfold inForest. cbv zeta. rewrite Esib.
+        destruct (N.ltb_spec (2 * 2 ^ T - 1) n) as [C|_]; [lia|].
+        rewrite shl_1 by exact HT. rewrite shl_pow2_1 by exact HT. fold (mask T).
+        rewrite mask_spec by exact HT. rewrite UtilsGeom.pow2_S.
+        destruct (N.leb_spec (2 * 2 ^ T - 1) (2 * 2 ^ T - 1)) as [_|C]; [reflexivity|lia].
+      + intros r o A B Ep. exfalso. rewrite EPar in Ep.
+        pose proof (gpos_range T (N.of_nat r) o A B) as Hrange. rewrite UtilsGeom.pow2_S in Hrange.
+        unfold gp in Ep. lia.
+    - assert (Hrd : rd < T) by lia.
+      assert (Hsv : N.lxor (noff y) 1 < 2 ^ (T - rd)) by (apply sib_offsets_lt; assumption).
+      split.
+      + unfold posN, gp. fold rd. rewrite sibling_gpos by lia.
+        destruct (inForest (gpos T rd (N.lxor (noff y) 1)) n T) eqn:Ei; [exfalso|reflexivity].
+        apply (inForest_spec T rd _ n HT ltac:(lia) Hsv) in Ei. rewrite Hlx in Ei.
+        rewrite UtilsGeom.pow2_S in Hgt. lia.
+      + intros r o A B Ep. unfold posN, gp in Ep. fold rd in Ep. rewrite (Parent_gpos T rd _ HT Hrd Vo) in Ep.
+        assert (Hq : noff y / 2 < 2 ^ (T - (rd + 1))).
+        { replace (T - rd) with (T - (rd + 1) + 1) in Vo by lia. rewrite UtilsGeom.pow2_S in Vo.
+          apply N.div_lt_upper_bound; lia. }
+        assert (Hr1 : rd + 1 <= T) by lia.
+        destruct (gpos_inj T _ _ _ _ A B Hr1 Hq Ep) as [Er Eo']. split; [unfold rd in Er; lia|exact Eo'].
+  Qed.
+
+  Lemma step_root_eq y (st : maps H) : In y lay -> nroot y = true ->
+    nodes_get (fst st) (Parent (posN y) T) = None ->
+    ud_movedown HO n T full [posN y] st = (st, true).
+  Proof.
+    intros Hy Hr E. destruct (root_geo y Hy Hr) as [G1 _]. cbn [ud_movedown]. rewrite G1, E. reflexivity.
+  Qed.
+End MoveDownGeo.
 (** Example: seven slots, the last three dead: the trees of rows 1 and 0 are empty roots; the leaf
     [Atom 2] is remembered.  Two leaves are added (the first is written over both empty roots and
     joined with the tree of row 2, the forest is re-mapped to 4 rows), and the block is undone. *)
@@ -3362,4 +3636,9 @@ Print Assumptions undo_adds_consistent.
 Print Assumptions modify_undo_adds.
 Print Assumptions mmu_ex_undo.
 Print Assumptions kill_inner_conv.
+Print Assumptions kill_root_conv.
+Print Assumptions pullB.
 Print Assumptions stepD_WInvX.
+Print Assumptions stepR_WInvX.
+Print Assumptions step_nonroot_eq.
+Print Assumptions step_root_eq.
